@@ -55,8 +55,14 @@ def model_xsd(m, variant="inline"):
     body = particle_xsd(m, [], variant, groups_out)
     glob = ""
     if uses(m, "h"):
-        glob = ('<xs:element name="a" type="xs:string"/>'
-                '<xs:element name="m" type="xs:string" substitutionGroup="t:a"/>')
+        import zlib
+        if zlib.crc32(mkey(m).encode()) % 2:
+            glob = ('<xs:element name="a" type="xs:string"/>'
+                    '<xs:element name="m" type="xs:string" substitutionGroup="t:a"/>')
+        else:   # the same substitution group, m reached through an abstract intermediate member
+            glob = ('<xs:element name="a" type="xs:string"/>'
+                    '<xs:element name="k" type="xs:string" abstract="true" substitutionGroup="t:a"/>'
+                    '<xs:element name="m" type="xs:string" substitutionGroup="t:k"/>')
     return (f'<xs:schema xmlns:xs="{XS}" targetNamespace="{TNS}" xmlns:t="{TNS}" '
             f'elementFormDefault="qualified">'
             f'<xs:element name="root"><xs:complexType>{body}</xs:complexType></xs:element>'
